@@ -34,6 +34,8 @@ func extraMonitors(prop string, tr *Tracker) []Monitor {
 		return []Monitor{&monC20{base: base{tr}}}
 	case "C12":
 		return []Monitor{&monC12{base: base{tr}}}
+	case "C24":
+		return []Monitor{&monC24{base: base{tr}}}
 	}
 	return nil
 }
